@@ -2,7 +2,6 @@
 from . import engine as E
 from . import runrules as R
 from . import stalerules as S
-from .common import rule_pruning_preserves_paths
 
 
 def check(ctx):
